@@ -713,7 +713,7 @@ theorem BookInv.step (s s' : Sys) (m : Msg) (rest0 subs : List Msg)
       | stsei blk sender funds tm heq hx' h bb r dd g =>
         injection heq with _ e2 _ _
         exact same h ch.1 ch.2 (sentBy_noStake b (by rw [e2]; decide) subs sent)
-      | reward s1 sender funds rm heq h1 hx' h bb t dd g =>
+      | reward s1 sender funds rm heq h1 _ _ hx' h bb t dd g =>
         injection heq with _ e2 _ _
         exact same h ch.1 ch.2 (sentBy_noStake b (by rw [e2]; decide) subs sent)
       | disp env sender funds dm heq hx' h bb t r g =>
@@ -871,7 +871,7 @@ theorem C02_direct_call_recognises (s s' : Sys) (sender : Addr) (funds : List (D
       exact fin.drained
     | bsei s1 sender' funds' tm heq _ _ _ _ _ _ _ => injection heq with _ e2 _ _; cases e2
     | stsei blk sender' funds' tm heq _ _ _ _ _ _ => injection heq with _ e2 _ _; cases e2
-    | reward s1 sender' funds' rm heq _ _ _ _ _ _ _ => injection heq with _ e2 _ _; cases e2
+    | reward s1 sender' funds' rm heq _ _ _ _ _ _ _ _ _ => injection heq with _ e2 _ _; cases e2
     | disp env sender' funds' dm heq _ _ _ _ _ _ => injection heq with _ e2 _ _; cases e2
     | reg s1 sender' funds' rm heq _ _ _ _ _ _ _ => injection heq with _ e2 _ _; cases e2
 
